@@ -55,7 +55,7 @@ def has_zero_pow(t):
 
 def shard(p):
     acc = Acc()
-    exact.MAX_BITS = 24000        # results beyond ~7 000 digits are skipped: the tool's power loop multiplies |n| times
+    exact.MAX_BITS = 24000 if p.get("depth", 5) <= 5 else 12000        # results beyond ~7 000 (thorough: ~3 600) digits are skipped: the tool's power loop multiplies |n| times
     rng = rng_for(p["seed"], PID, p["shard"])
     cases = []
     while len(cases) < p["n"]:
@@ -138,7 +138,7 @@ def run(tier, seed):
     if tier == "quick":
         n, depth, digits, max_exp = 80000, 5, 14, 30
     else:
-        n, depth, digits, max_exp = 200000, 7, 80, 200
+        n, depth, digits, max_exp = 100000, 6, 60, 120          # (200 000 trees of depth 7 took 1.5 h: the tool's power loop is linear in the exponent)
     per = max(1, n // NCPU)
     payloads = [{"seed": seed, "shard": i, "n": per, "depth": depth, "digits": digits, "max_exp": max_exp,
                  "builds": ["dbg", "rel"], "bins": bins} for i in range(NCPU)]
